@@ -488,6 +488,9 @@ func (t *Collection) VisitItemsRandom(
 
 	for j := lenBlock + 1; j > 0; j-- {
 		for i, si := range blockStore {
+			if si == nil {
+				continue // This (last, shorter) block has no item left.
+			}
 			// The behaviour we want is to visit the first item in each of blockStore
 			// then on the second item update blockStore to point to that second item
 			// repeat for each item in the block
@@ -505,6 +508,10 @@ func (t *Collection) VisitItemsRandom(
 			err = t.VisitItemsAscendEx(si, true, vis)
 			if err != nil {
 				return err
+			}
+			if !first {
+				// Nothing follows the item just visited: do not visit it again.
+				blockStore[i] = nil
 			}
 		}
 	}
@@ -611,6 +618,9 @@ func (t *Collection) Len() (l int64, err error) {
 	si, err := t.MinItem(false)
 	if err != nil {
 		return
+	}
+	if si == nil {
+		return 0, nil // Empty collection.
 	}
 	err = t.VisitItemsAscendEx(si.Key, false, visitor)
 	return
